@@ -36,6 +36,10 @@ pub fn pool() -> Vec<(String, String)> {
     v.push(("empty".into(), ";".into()));
     v.push(("annotation".into(), "@verif note\n".into()));
     v.push(("include".into(), "include \"stdgates.inc\";".into()));
+    v.push(("pragma_empty".into(), "pragma \n".into()));
+    v.push(("pragma_blank".into(), "pragma   \t\n".into()));
+    v.push(("hash_pragma_empty".into(), "#pragma \n".into()));
+    v.push(("comment_stars".into(), "/** doc **/ a;".into()));
     v.push(("version".into(), "OPENQASM 3.0;".into()));
     v.push(("version_major".into(), "OPENQASM 3;".into()));
     v.push(("return".into(), "return a;".into()));
